@@ -14,5 +14,14 @@ for t in ETYPES:
                                functions=['asn1c-generated %s codec of %s (constraint tables emitted by the current compiler)' % (k, t)],
                                inputs='every value of the root set (and, for the extensible type, every long outside it)',
                                bounds='constraint expression fixed per query; effective constraint transcribed by hand in asn1/drv/%s.h' % t))
+# compiler-side kernel with symbolic bounds
+HARNESSES.append(H('emit_oer_width', 'C09/emit_kernel.c', sources=[], incdirs=['libasn1compiler', 'libasn1fix', 'libasn1parser', 'libasn1common', 'libasn1print'],
+                   models=['quiet'], functions=['emit_single_member_OER_constraint_value (libasn1compiler/asn1c_C.c)'],
+                   inputs='lower and upper bound of an INTEGER range, both 64 bits symbolic', bounds='none',
+                   note='asn1c_compiled_output replaced by a recording stub; asn1f_find_terminal_type_ex is the identity'))
+HARNESSES.append(H('emit_per_bits', 'C09/emit_kernel.c', sources=[], defines=['-DPER_KERNEL'], incdirs=['libasn1compiler', 'libasn1fix', 'libasn1parser', 'libasn1common', 'libasn1print'],
+                   models=['quiet'], functions=['emit_single_member_PER_constraint (libasn1compiler/asn1c_C.c)'], solver='race', timeout=900,
+                   inputs='lower and upper bound of an INTEGER range (64 bits symbolic, width < 2^62), extensibility flag', bounds='range width < 2^62',
+                   note='asn1c_compiled_output is a recording stub; asn1p_itoa (comment text only) is stubbed'))
 ASSUMPTIONS = ['the effective (PER/OER-visible) constraint of each corpus expression is transcribed by hand from X.680/X.691 10.3/X.696 8.2 into the driver header; the reference encoder takes it as a parameter']
 OUTSIDE = ['constraint expressions outside the corpus; the range algebra with symbolic leaf values (attempted, see DESIGN.md: CBMC needs >60 GB on libasn1fix/asn1fix_crange.c)', 'the -print-constraints text']
